@@ -1,6 +1,8 @@
 """C16 — missing observations under observation_nan_policy 'mask' / 'fill' behave as if deleted.
 
-Tie: correspondence.  For every (model, NaN pattern) the harness evaluates the model's own prior densely, ships it
+Tie: translator G7 (the mask / fill branches of _mean_cache, exact_predictive_mean, exact_predictive_covar and
+_exact_predictive_covar_missing_obs are regenerated into lean/GPVerif/Gen/ExactAlgebra.lean on every run, proved equal
+to the deleted-data closed form in Props/C16.lean and executed by the driver) AND correspondence.  For every (model, NaN pattern) the harness evaluates the model's own prior densely, ships it
 with the observation mask as exact rationals to `lean/drivers/C16.lean` (GPVerif/Model/ExactGP.lean at ℚ: the
 `mask` / `fill` code paths and, by the theorems of GPVerif/Props/C16.lean, the deleted-data closed form), and compares
 with the real `model(x*)` under the policy — for every order of switching policies on one model object —, with the
@@ -16,18 +18,22 @@ from fractions import Fraction
 
 from lib import common as C
 from props import _gpmodels as G
-from props.c01 import _lines_parallel, _np, _absmax, _norm_inf, EPS
+from props.c01 import _lines_parallel, _np, _absmax, _norm_inf, EPS, generate  # noqa: F401  (generate: translator G7)
 
 ID = "C16"
 PROP_MODULES = ["GPVerif.Props.C16"]
-BUILD_TARGETS = ["GPVerif.Props.C16", "GPVerif.Model.ExactGP", "GPVerif.Model.LDL", "GPVerif.Model.Proto"]
+BUILD_TARGETS = ["GPVerif.Props.C16", "GPVerif.Gen.ExactAlgebra", "GPVerif.Model.ExactGP", "GPVerif.Model.LDL",
+                 "GPVerif.Model.Proto"]
 RULE = ("random exact GPs (single-output Gaussian / FixedNoise likelihood, model-batch b=2 with per-element patterns, "
         "Kronecker multitask t=2 with per-task patterns) x NaN patterns of the training targets (none, every single "
         "missing, every all-but-one, random; thorough: all 2^n-1 patterns for n<=6) x policy sequences on ONE model "
         "object (mask, fill, mask>fill, fill>mask, mask>fill>mask, fill>mask>fill, ignore>mask, ignore>fill) x "
         "fast_pred_var on/off; one case = (model, pattern, sequence, step); distinct = distinct (model, pattern, "
         "sequence, fast); non-trivial = at least one target missing and at least one observed")
-TRUSTED = ["torch / linear_operator primitives (Cholesky, MaskedLinearOperator)",
+TRUSTED = ["translator harness/translate/g7_exact_algebra.py (Python AST of _mean_cache mask/fill, exact_predictive_mean, "
+           "exact_predictive_covar, _exact_predictive_covar_missing_obs -> lean/GPVerif/Gen/ExactAlgebra.lean, executed "
+           "by the driver and compared with the real code on every case)",
+           "torch / linear_operator primitives (Cholesky, MaskedLinearOperator)",
            "harness/props/_gpmodels.py (dense evaluation of the model's own prior; documented noise covariance)",
            "float64 <-> exact comparison with tolerance max(64 n kappa 2^-52, 1e-9) * scale + 1e-12; log of the exact "
            "determinant taken in float64"]
@@ -108,7 +114,9 @@ def nan_line(P, b, obs):
     return " ".join(["nan", str(N), str(Sx), C.mat_tokens(P["J"][b]), C.vec_tokens(P["mj"][b]),
                      C.mat_tokens(P["Strain"][b]), C.vec_tokens(P["y"][b]),
                      f"{N} 1 " + " ".join("1" if o else "0" for o in obs), f"1 1 {C.rat_str(FILL)}",
-                     f"1 1 {C.rat_str(FILL)}"])
+                     f"1 1 {C.rat_str(FILL)}",
+                     # branch configuration of the generated code: eager split (joint <= 512), dim()==2 iff unbatched
+                     str((8 if N + Sx <= 512 else 0) + (16 if tuple(P["B"]) == () else 0))])
 
 
 def parse_nan(rep):
@@ -118,7 +126,9 @@ def parse_nan(rep):
     parts = rep[3:].split(" | ")
     mat = lambda p: np.array(C.fmat_to_float(C.parse_mat(p.split())[0]), dtype=float)
     det = None if parts[7] == "nodet" else Fraction(parts[7])
-    return {"cnt": int(parts[0]), "meanMask": mat(parts[1])[:, 0], "covMask": mat(parts[2]),
+    g = [None if p.strip() == "nogen" else mat(p) for p in parts[8:12]]
+    gen = {"mask": (g[0], g[1]), "fill": (g[2], g[3])} if len(g) == 4 else {}
+    return {"gen": gen, "cnt": int(parts[0]), "meanMask": mat(parts[1])[:, 0], "covMask": mat(parts[2]),
             "meanFill": mat(parts[3])[:, 0], "covFill": mat(parts[4]), "covIgn": mat(parts[5]),
             "quad": Fraction(parts[6]), "det": det}
 
@@ -372,6 +382,16 @@ def compare(ctx, item, replies):
                       r["mean"][b], em, rel * sc_mean + 1e-12, extra)
                 tol_c = rel * sc_cov + 1e-12
                 got_c = r["cov"][b]
+                # tie: the implementation vs what the translator says the code is (GENERATED exact_prediction)
+                gm, gc = ex.get("gen", {}).get(pol, (None, None))
+                ctx.count("generated-vs-impl")
+                if gm is None or gc is None:
+                    ctx.broke("correspondence", "generated algebra returned no value", f"policy {pol} on {where}")
+                else:
+                    for nm, got_, exp_, tl in (("mean", r["mean"][b], gm[:, 0], rel * sc_mean + 1e-12), ("covar", got_c, gc, tol_c)):
+                        if np.isnan(np.asarray(got_, dtype=float)).any() or _absmax(np.asarray(got_) - exp_) > tl:
+                            ctx.broke("correspondence", f"generated algebra (Gen/ExactAlgebra.lean) vs implementation: {nm}:{pol}",
+                                      f"|impl - generated| = {_absmax(np.asarray(got_) - exp_):.3e} > {tl:.1e} on {where} seq={seqname}")
                 if not np.isnan(got_c).any() and _absmax(got_c - ec) > tol_c and \
                         _absmax(got_c - ex["covIgn"]) <= tol_c + rel * sc_cov:
                     # the signature of the known defect: the covariance conditions on the rows of the missing targets
